@@ -17,33 +17,6 @@ theorem eq_iff (a b : ValidationParams) : a.eq b = true ↔ a = b := by
   · rintro rfl
     simp [ValidationParams.eq]
 
-/-- Boolean implication -/
-def imp (x y : Bool) : Bool := !x || y
-
-/-- `a ≤ b` component-wise: every switch `a` allows `b` allows, every limit of `a` is at most
-the limit of `b` -/
-def le (a b : ValidationParams) : Bool :=
-  imp a.allowCompressedKeys b.allowCompressedKeys
-    && imp a.allowDuplicateKeys b.allowDuplicateKeys
-    && imp a.allowDupIf b.allowDupIf
-    && imp a.allowMalleability b.allowMalleability
-    && imp a.allowMixedTimeLocks b.allowMixedTimeLocks
-    && imp a.allowMulti b.allowMulti
-    && imp a.allowMultiA b.allowMultiA
-    && imp a.allowOrI b.allowOrI
-    && imp a.allowRawPkh b.allowRawPkh
-    && imp a.allowSiglessBranch b.allowSiglessBranch
-    && imp a.allowNonB b.allowNonB
-    && imp a.allowUncompressedKeys b.allowUncompressedKeys
-    && imp a.allowUnsatisfiable b.allowUnsatisfiable
-    && imp a.allowXOnlyKeys b.allowXOnlyKeys
-    && imp a.allowInconsistentMultipathKeys b.allowInconsistentMultipathKeys
-    && decide (a.maxOpcodeCount ≤ b.maxOpcodeCount)
-    && decide (a.maxScriptSize ≤ b.maxScriptSize)
-    && decide (a.maxWitnessItems ≤ b.maxWitnessItems)
-    && decide (a.maxExecStackSize ≤ b.maxExecStackSize)
-    && decide (a.maxRecursiveDepth ≤ b.maxRecursiveDepth)
-
 theorem and_eq_left_iff (x y : Bool) : ((x && y) == x) = imp x y := by cases x <;> cases y <;> rfl
 
 theorem minU_eq_left_iff (a b : Nat) : (minU a b == a) = decide (a ≤ b) := by
